@@ -707,4 +707,62 @@ CHECKS = {
                      "audit-actor oracle, login matrix, nonce-reuse forgery",
         "design_ref": "DESIGN.md section 6, C20",
     },
+    "C18": {
+        "bin": "c18",
+        "level": "exploration",
+        "quick": {"shards": 8, "budget_s": 70, "min_evaluations": 100},
+        "thorough": {"shards": 14, "budget_s": 900, "min_evaluations": 2000},
+        "rule": (
+            "Rounds on the REAL thread pool (num_threads 4) and the REAL "
+            "scheduler thread (StartupManager::run_scheduler + promote): a "
+            "hierarchy TA -> {p -> {c1, c2}, q} is bulk-imported through "
+            "the API, then 4-12 concurrent clients issue 3-7 operations "
+            "each through the async KrillManager API: ROA additions with "
+            "globally unique prefixes on four CAs, deliberately rejected "
+            "deltas, entitlement updates of c1 at p (two values), "
+            "refresh-all, republish-all (forced or not), repository syncs, "
+            "key-roll init/activate on c2, and reads (CA info, routes, "
+            "history, repository statistics, CA statistics) - on the same "
+            "CA, different CAs, a parent and its child, and the publication "
+            "server, while the scheduler executes the triggered tasks; disk "
+            "and memory back-ends; verif yield hook active. Oracles: "
+            "progress monitor (all calls return within 150 s, otherwise "
+            "thread states and CPU time decide deadlock vs inconclusive), "
+            "every answer explainable by a serial order, the queue becomes "
+            "idle, then: tree RP-valid, per CA the configured ROAs are "
+            "exactly the initial ones plus every accepted addition, each "
+            "once, configured-and-held ROAs are validated and nothing else, "
+            "the child's entitlement is one of the written values. "
+            "evaluations = final-state comparisons per CA and round; "
+            "distinct_nontrivial = distinct (back-end, set of operation "
+            "kinds in the round) mixes; lock_order_pairs lists the "
+            "(previous site -> lock site) pairs seen by the yield hook."
+        ),
+        "assumptions": COMMON_ASSUMPTIONS + [
+            "interleavings are sampled from the OS scheduler under seeded "
+            "perturbation; a deadlock needing more than 12 clients or a "
+            "specific three-way timing may be missed",
+            "RFC 8181/6492 exchanges from harness-played remote parties are "
+            "not part of the concurrent mix (C12 covers them sequentially); "
+            "local parent/child and CA/repository exchanges are",
+            "'waits for ever' is restated as: not returned after 150 s "
+            "while every thread is blocked and no CPU time is consumed for "
+            "3 s; a slow but progressing run is inconclusive",
+        ],
+        "level_text": (
+            "Runtime monitoring of real concurrent executions of the "
+            "daemon's worker and scheduler threads with a progress monitor "
+            "and a commutativity-based serial-equivalence check (unique "
+            "prefixes make the accepted set readable from the final state)."
+        ),
+        "level_note": (
+            "Trusted: the harness' client-side log; rpki-rs validation for "
+            "the final relying-party walk; ThreadSanitizer is not part of "
+            "the registered commands."
+        ),
+        "technique": "runtime monitoring: real thread pool + scheduler under "
+                     "concurrent clients, progress monitor and serial-"
+                     "equivalence oracle",
+        "design_ref": "DESIGN.md section 4, C18",
+    },
 }
